@@ -670,8 +670,13 @@ def reduce_ids(ids, dim, keepdim, fold):
     n = 1
     for i in dims:
         n *= ids.shape[i]
-    p = p.reshape(kshape + [n]) if kshape else p.reshape(1, n)
-    rows = p.reshape(-1, n).tolist()
+    nrows = 1
+    for k_ in kshape:
+        nrows *= k_
+    if n == 0:
+        rows = [[] for _ in range(nrows)]
+    else:
+        rows = p.reshape(nrows, n).tolist()
     out = _real_tensor([fold(r) for r in rows], dtype=I64).reshape(kshape)
     if keepdim:
         for i in dims:
